@@ -1,6 +1,6 @@
 (* Interpreter for C06 / C18: sequences of convert_variable calls on a model given as variables, equations, units. *)
 From Coq Require Import List ZArith QArith Bool.
-From Verif Require Import Sexp UnitAlg UStore Expr ModelSM ModelSMRun ConvertVar.
+From Verif Require Import Sexp UnitAlg UStore Expr ModelSM ModelSMRun ConvertVar QtyUnits.
 Import ListNotations.
 Open Scope Z_scope.
 
@@ -32,7 +32,8 @@ Definition ceq_of_sexp (x : sexp) : ceq :=
 Definition sstate (s : cstate) : sexp :=
   L [L (map (fun c => L [sstr (c_name c); svec (c_unit c); sopt (fun q => sQ (Qred q)) (c_init c); sopt sstr (c_cmeta c)]) (cvars s));
      L (map (fun q => L [sclhs (q_lhs q); sexp_of_expr (q_rhs q)]) (ceqs s));
-     L (map svec (cunits s))].
+     L (map svec (cunits s));
+     sbool (units_invariant s)].
 
 Fixpoint cv_ops (s : cstate) (ops : list sexp) : list sexp :=
   match ops with
